@@ -62,6 +62,16 @@ void h_stop(const char * kind)
     stopped = 1;
 }
 
+const int h_cookie[16] = { 100, 101, 102, 103, 104, 105, 106, 107, 108, 109, 110, 111, 112, 113, 114, 115 };
+
+void h_priv_check(const void * p, int k)
+{
+    if (p != (const void *)&h_cookie[k]) {
+        h_stop("bad-priv");
+        _exit(0);
+    }
+}
+
 size_t h_size(const char * s)
 {
     if (s[0] == 'M') {
